@@ -71,6 +71,10 @@ FUNCS = {
             # the framing state belongs to recv_raw: message handling never touches it
             ('rx_buffer_untouched', 'self._Messenger__rx_buf == old(self._Messenger__rx_buf) and '
                                     'ghost.rx_consumed == old(ghost.rx_consumed)', ['C07']),
+            ('trace_only_grows', 'length(ghost.trace) >= length(old(ghost.trace))', []),
+            ('in_sess_monotone', 'implies(old(self._in_sess), self._in_sess)', []),
+            # C14: the keepalive interval counts from the last message *sent*: receiving re-arms it only by sending
+            ('keepalive_rearmed_only_by_sending', 'implies(old(self._in_sess), ka_kept(self))', ['C14']),
             ('configuration_kept', 'self._peer_name == old(self._peer_name) and '
                                    '(self._config.modulate_target_ack_time is None) == '
                                    'old(self._config.modulate_target_ack_time is None)', []),
